@@ -912,7 +912,7 @@ namespace avel {
     [[nodiscard]]
     AVEL_FINL vec2x64f negate(mask2x64f m, vec2x64f v) {
         #if defined(AVEL_AVX512VL) || defined(AVEL_AVX10_1)
-        return vec2x64f{_mm_mask_sub_pd(decay(v), decay(m), _mm_setzero_pd(), decay(v))};
+        return vec2x64f{_mm_castsi128_pd(_mm_mask_xor_epi64(_mm_castpd_si128(decay(v)), decay(m), _mm_castpd_si128(decay(v)), _mm_set1_epi64x(std::int64_t(0x8000000000000000ull))))};
 
         #elif defined(AVEL_SSE2)
         auto negation_mask = _mm_and_pd(decay(m), _mm_set1_pd(double_sign_bit_mask));
